@@ -183,6 +183,14 @@ def solve(task):
     for e, v in d['engines'].items():
         queries.append({'q': mode, 'engine': e, 'result': v['result'], 's': v['s']})
     out['solver_s'] = round(sum(v['s'] for v in d['engines'].values()), 3)
+    # "never throws": is a raising rule reachable on some string of this length?
+    if task.get('raise_goal'):
+        d3 = decide(z3, task, alg, rz, 'raise', (acc, rz, rfc))
+        for e, v in d3['engines'].items():
+            queries.append({'q': 'a raising rule is reached', 'engine': e, 'result': v['result'], 's': v['s']})
+        out['raise_status'] = d3['status']
+        if d3['status'] == 'sat':
+            out['raise_witness'] = d3['witness']
     # exclusion soundness: every string of the known language is a disagreement of the known shape
     if mode == 'confirm' and d['status'] == 'sat':
         d2 = decide(z3, dict(task, engines=['z3']), alg, z3.And(known, z3.Not(z3.And(z3.Not(acc), rfc))), 'subset', (acc, rz, rfc))
